@@ -401,6 +401,21 @@ def build_variants(t, ty, rng, thorough):
             d["roles"][r] = {"features": {f: True for f in feats[:2]}}
         raw[2] = d
         out.append(raw)
+    # the keys that are only valid in certain combinations, in each valid combination
+    if t in ("unsubscribed", "unregistered"):
+        idk = "subscription" if t == "unsubscribed" else "registration"
+        why = "wamp.%s.revoked" % idk
+        for raw in ([base[0], 7, {"reason": why}],                       # a reason for an unsubscribe the client asked for
+                    [base[0], 0, {idk: 5}],                              # revoked by the router: request 0, the id in the details
+                    [base[0], 0, {idk: 5, "reason": why}], [base[0], 0, {idk: 9007199254740992, "reason": "com.myapp.gone"}]):
+            out.append(copy.deepcopy(raw))
+    if t == "welcome":
+        raw = copy.deepcopy(base)
+        raw[2] = dict(raw[2], resumable=True, resume_token="tok-1")
+        out.append(raw)
+        raw = copy.deepcopy(base)
+        raw[2] = dict(raw[2], resumed=True, resumable=False, resume_token="tok-2")
+        out.append(raw)
     for idv in IDS:
         if idv == 0 and t in ("unsubscribed", "unregistered"):
             continue                  # request 0 = revoked by the router, needs the id detail (covered by the C08 cases)
